@@ -98,7 +98,7 @@ impl fmt::Display for GraphError {
             Self::InvalidPropertyName { name } => {
                 write!(
                     f,
-                    "Invalid property name '{name}': contains reserved character ':'"
+                    "Invalid property name '{name}': contains reserved character ':' or starts with the reserved prefix '_'"
                 )
             },
             Self::CorruptedEdge { edge_id, field } => {
